@@ -3,7 +3,7 @@
 domain : programs made of a main XDP program and 0-2 subprogram instances
          (of 1-2 classes) with local variables of all sizes and bit fields,
          array-map, per-CPU and hash-map variables, packet variables and one
-         Dict; 5-25 statements, each writing one variable from a constant, a
+         Dict, declared in one class or partly in a base class; 5-25 statements, each writing one variable from a constant, a
          copy, a (temporary-forcing) expression, abs, ktime/prandom, a
          comparison result into a bit field, or a Dict update/lookup; then a
          dump of every variable through the DSL.
@@ -105,10 +105,10 @@ def case_strategy(draw):
         [d for d in decls if d["name"] == v[1]][0]["fmt"], str)]
     bits = [v for v in inst if v not in ints]
     if not ints:
-        decls.append({"name": "mx", "owner": "main", "kind": "local",
+        decls.append({"name": "m99", "owner": "main", "kind": "local",
                       "fmt": "I"})
-        inst.append(["main", "mx"])
-        ints = [["main", "mx"]]
+        inst.append(["main", "m99"])
+        ints = [["main", "m99"]]
     hashes = [v for v in inst if [d for d in decls
                                   if d["name"] == v[1]][0]["kind"] == "hash"]
     for _ in range(draw(st.integers(5, 25))):
@@ -154,7 +154,11 @@ def case_strategy(draw):
                           [draw(st.integers(0, 3)) for _ in dspec["key"]],
                           tgt, draw(st.integers(0, len(dspec["value"]) - 1))])
     return {"subs": subs, "decls": decls, "dict": dspec, "stmts": stmts,
-            "init": [draw(st.integers(0, 200)) for _ in inst]}
+            "init": [draw(st.integers(0, 200)) for _ in inst],
+            # how many of the main program's first declarations come from a
+            # base class; the same for the first one of each subprogram class
+            "split": draw(st.sampled_from([0, 0, 1, 2, 3])),
+            "split_sub": draw(st.booleans())}
 
 
 def strategy(tier):
@@ -255,7 +259,8 @@ def run_case(case):
             d = dmap[v[1]]
             if d["kind"] == "local" and not isinstance(d["fmt"], str):
                 o = obj(e, v[0])
-                _, addr = type(o).__dict__[v[1]].fmt_addr(o)
+                _, addr = next(c.__dict__[v[1]] for c in type(o).__mro__
+                               if v[1] in c.__dict__).fmt_addr(o)
                 e.append(Opcode.ST + Opcode.B, 10, 0, addr, 0)
         for v, c in zip(inst, case["init"]):
             f = fmt_of(v)
@@ -378,9 +383,24 @@ def run_case(case):
                              {f"v{i}": Member(f)
                               for i, f in enumerate(dspec["value"])})
                 ns["table"] = Dict(Key, Value, size=8)
-            cls = type("P", (XDP,), ns)
+            # the first declarations may sit in a base class, the rest in
+            # the class derived from it
+            def derive(name, root, members, names, k):
+                inherited = {n: members.pop(n) for n in names[:k]
+                             if n in members}
+                if not inherited:
+                    return type(name, (root,), members)
+                classes.append("inherited-declarations")
+                return type(name, (type(name + "Base", (root,), inherited),),
+                            members)
+            cls = derive("P", XDP, ns,
+                         [d["name"] for d in decls if d["owner"] == "main"],
+                         case.get("split", 0))
             subobjs = []
-            subcls = {ci: type(f"S{ci}", (SubProgram,), dict(subns[ci]))
+            subcls = {ci: derive(f"S{ci}", SubProgram, dict(subns[ci]),
+                                 [d["name"] for d in decls
+                                  if d["owner"] == ci],
+                                 1 if case.get("split_sub") else 0)
                       for ci in subns}
             for ci in subs:
                 subobjs.append(subcls[ci]())
